@@ -2,13 +2,25 @@
    Proved over Builder.apply: an added rule is appended to the rule list of its key and leaves every
    other key's list alone, so what a table accepted it still accepts afterwards (rules accumulate);
    switch-like options take the value of their most recent setting and leave all tables alone.
+   Order of calls (C17_order_of_rule_calls, Proofs/BuilderEquiv.v + PolicyEquiv.v): two builder
+   histories that make the same switch-like calls in the same order and the same rule-adding calls
+   (AllowAttrs..., AllowStyles..., AllowElements, AllowElementsMatching, with any scope) in ANY order
+   and interleaving build policies that sanitize every input to the same bytes, for every
+   interpretation of matchers and oracles.  (Side condition: a pattern's pointer identity stands
+   for one regexp, as in Go.)  The proof decomposes every rule-adding call into primitive table
+   updates (apply_prims), shows that primitive updates commute up to "same rules" (prim_comm) and
+   commute exactly with switch-like calls (history_normal_form), and that policies with the same
+   rules behave identically (PolicyEquiv.peq_sanitize).
    Independence of instances is built into the functional model; that the code allocates per
    instance, lower-cases names and accumulates rather than replaces is checked by the dump
    correspondence: interleaved builder histories on 2-3 policies, every table of every policy
-   compared with the model after every call. *)
+   compared with the model after every call.
+   Missing: letter-case independence as a theorem (the model lower-cases names with the modelled
+   strings.ToLower; its idempotence on arbitrary Unicode is not proved). *)
 From Coq Require Import List NArith Bool.
 Import ListNotations.
-From BM Require Import Bytes Strings Policy Attrs Builder MapProofs MiscProofs.
+From Coq Require Import Permutation.
+From BM Require Import Bytes Strings Tokenizer Policy Attrs Loop Builder MapProofs MiscProofs PolicyEquiv BuilderEquiv.
 
 Section C17.
   Variables M U R : Type.
@@ -44,8 +56,47 @@ Section C17.
     apply filter_In in Hin as [_ Hf]. apply negb_true_iff in Hf. apply beqb_eq in Hx. subst x.
     rewrite beqb_refl in Hf. discriminate.
   Qed.
+
+  (* the order of the rule-adding calls does not matter *)
+  Theorem C17_order_of_rule_calls : forall h1 h2,
+    switches_of M U R h1 = switches_of M U R h2 ->
+    Permutation (rules_of M U R h1) (rules_of M U R h2) ->
+    all_compat M (flat_map (prims_of M U R dh) (rules_of M U R h1)) ->
+    forall s, sanitize_bytes I (build dh h1) s = sanitize_bytes I (build dh h2) s.
+  Proof.
+    intros h1 h2 Hs Hp Hc s. unfold build.
+    destruct (histories_core_eq M U R dh h1 h2 (new_policy M U R) (new_policy_wf M U R) Hs Hp Hc) as (C & W1 & W2).
+    apply (peq_sanitize I). apply core_eq_peq; assumption.
+  Qed.
+
+  (* histories without element patterns satisfy the side condition *)
+  Lemma C17_no_patterns_compat : forall l : list (prim M), (forall x, In x l -> prim_rid M x = None) -> all_compat M l.
+  Proof. intros l H x y Hx Hy. unfold compat. rewrite (H x Hx). exact Logic.I. Qed.
 End C17.
+
+(* non-vacuity: two orders of the same calls *)
+Section C17Example.
+  Variables M U R : Type.
+  Variable I : interp M U R.
+  Variable dh : bytes -> M.
+  Definition h_one : list (op M U R) :=
+    [@OAllowAttrs _ _ _ [B"href"] None false (@OnElements _ [B"a"]); @ORequireNoFollowOnLinks _ _ _ true;
+     @OAllowElements _ _ _ [B"b"; B"i"]; @OAllowAttrs _ _ _ [B"title"] None false (@Globally _)].
+  Definition h_two : list (op M U R) :=
+    [@OAllowElements _ _ _ [B"b"; B"i"]; @OAllowAttrs _ _ _ [B"title"] None false (@Globally _);
+     @ORequireNoFollowOnLinks _ _ _ true; @OAllowAttrs _ _ _ [B"href"] None false (@OnElements _ [B"a"])].
+  Example C17_example : forall s, sanitize_bytes I (build dh h_one) s = sanitize_bytes I (build dh h_two) s.
+  Proof.
+    apply C17_order_of_rule_calls.
+    - reflexivity.
+    - cbn. apply perm_trans with (l' := [@OAllowElements M U R [B"b"; B"i"]; @OAllowAttrs _ _ _ [B"href"] None false (@OnElements _ [B"a"]); @OAllowAttrs _ _ _ [B"title"] None false (@Globally _)]).
+      + apply perm_swap.
+      + apply perm_skip. apply perm_swap.
+    - apply C17_no_patterns_compat. cbn. intros x Hx. repeat (destruct Hx as [<-|Hx]; [reflexivity|]). contradiction.
+  Qed.
+End C17Example.
 
 Print Assumptions C17_rules_accumulate_partial.
 Print Assumptions C17_rule_lists.
 Print Assumptions C17_switch_last_setting.
+Print Assumptions C17_order_of_rule_calls.
